@@ -193,6 +193,7 @@ func runJob(sc *scratch, cfg *propCfg, j job) []*runResult {
 	tmp.Close()
 	os.Remove(outPath)
 	defer os.Remove(outPath)
+	defer os.Remove(outPath + ".params")
 	cmd := exec.Command(sc.bin, "-test.run", "^TestWorker$", "-test.timeout", "0")
 	gmp := j.gmp
 	if gmp == 0 {
@@ -264,6 +265,19 @@ func runJob(sc *scratch, cfg *propCfg, j job) []*runResult {
 			r.Verdict = "crash"
 			r.crash = classifyCrash(se)
 			r.Class = j.prop + ":process-death:" + r.crash
+			if pb, err := os.ReadFile(outPath + ".params"); err == nil {
+				r.Params = map[string]interface{}{}
+				for _, l := range strings.Split(string(pb), "\n") {
+					if kv := strings.SplitN(l, "=", 2); len(kv) == 2 {
+						r.Params[kv[0]] = kv[1]
+					}
+				}
+				for _, k := range []string{"mode", "poison", "kind"} {
+					if v, ok := r.Params[k]; ok {
+						r.Class += ":" + fmt.Sprint(v)
+					}
+				}
+			}
 			r.Detail = tail(head(se, 6000), 6000)
 		default:
 			r.Verdict = "trouble"
